@@ -263,7 +263,7 @@ void exec_mt_plan(const Plan &plan, Ctx &ctx, Outcome &out) {
       arm_guard(30, 300);
       set_phase(PH_COMPILE);
       std::vector<uint64_t> fps(2 * n, 0);
-      for (size_t k = n; k-- > 0;) { TaskResult r = run_task(plan.tasks[k], budget); fps[2 * k] = r.compile_fp; fps[2 * k + 1] = r.exec_fp; }
+      for (size_t k = n; k-- > 0;) { seed_heap((uint64_t)plan.run * 1000 + k * 10 + 4); TaskResult r = run_task(plan.tasks[k], budget); fps[2 * k] = r.compile_fp; fps[2 * k + 1] = r.exec_fp; }
       ssize_t w = write(hfd[1], fps.data(), fps.size() * sizeof(uint64_t)); (void)w;
       _exit(0);
     }
@@ -273,7 +273,7 @@ void exec_mt_plan(const Plan &plan, Ctx &ctx, Outcome &out) {
   // (a) every task alone, before any concurrency
   set_phase(PH_COMPILE);
   std::vector<TaskResult> alone(n), conc(n), again(n);
-  for (size_t k = 0; k < n; k++) { alone[k] = run_task(plan.tasks[k], budget); ctx.ev("alone", (long long)k, (long long)(alone[k].compile_fp & 0xffffffff), (long long)(alone[k].exec_fp & 0xffffffff)); ctx.sim_steps += alone[k].steps; }
+  for (size_t k = 0; k < n; k++) { seed_heap((uint64_t)plan.run * 1000 + k * 10 + 1); alone[k] = run_task(plan.tasks[k], budget); ctx.ev("alone", (long long)k, (long long)(alone[k].compile_fp & 0xffffffff), (long long)(alone[k].exec_fp & 0xffffffff)); ctx.sim_steps += alone[k].steps; }
 
   // concurrent phase on real threads
   pthread_attr_t attr;
@@ -281,6 +281,8 @@ void exec_mt_plan(const Plan &plan, Ctx &ctx, Outcome &out) {
   pthread_attr_setstacksize(&attr, 512UL << 20);
   std::vector<pthread_t> th(n);
   std::vector<char> threw(n, 0);
+  seed_heap((uint64_t)plan.run * 1000 + 2);
+  if (heap_is_seeded()) ctx.stats.inc("fault_seeded_heap_layouts", 3 * (long long)n + 1);
   if (free_running) {
     std::vector<FreeArg> args(n);
     for (size_t k = 0; k < n; k++) { args[k] = {&plan.tasks[k], &conc[k], budget}; pthread_create(&th[k], &attr, free_thread_main, &args[k]); }
@@ -317,7 +319,7 @@ void exec_mt_plan(const Plan &plan, Ctx &ctx, Outcome &out) {
 
   // (b) every task alone again, after the concurrent phase, in reverse order
   set_phase(PH_COMPILE);
-  for (size_t k = n; k-- > 0;) { again[k] = run_task(plan.tasks[k], budget); ctx.sim_steps += again[k].steps; }
+  for (size_t k = n; k-- > 0;) { seed_heap((uint64_t)plan.run * 1000 + k * 10 + 3); again[k] = run_task(plan.tasks[k], budget); ctx.sim_steps += again[k].steps; }
   set_phase(PH_HARNESS);
 
   for (size_t k = 0; k < n; k++) {
